@@ -73,8 +73,28 @@ class StartupRun:
         from asphalt.core import Component
 
         run = self
+        # twins: ONE class for both components declared under two aliases by one shared configuration mapping (and one
+        # for their children); which node an instance is follows from the order of construction
+        self.twin_next = {m: [i for i, s in enumerate(self.prog) if s.get("twin") == m] for m in ("T", "TL")}
+        for marker in ("T", "TL"):
+            if not self.twin_next[marker]:
+                continue
+
+            def t_init(self: Any, _m: str = marker, **kw: Any) -> None:
+                self._i = run.twin_next[_m].pop(0)
+                run.trace.append({"l": ["construct", self._i], "t": 0.0})
+
+            async def t_start(self: Any) -> None:
+                await run.phase(self._i, "start", run.prog[self._i]["start"])
+
+            cls = type("Twin" if marker == "T" else "TwinLeaf", (Component,), {"__init__": t_init, "start": t_start})
+            globals()["DYN_TWIN" if marker == "T" else "DYN_TWINLEAF"] = cls
+            for i in self.twin_next[marker]:
+                self.classes[i] = cls
         for i in reversed(range(len(self.prog))):
             spec = self.prog[i]
+            if spec.get("twin"):
+                continue
             ns: dict[str, Any] = {}
 
             def __init__(self: Any, _i: int = i, _spec: dict[str, Any] = spec, **kw: Any) -> None:
@@ -83,6 +103,8 @@ class StartupRun:
                     raise ValueError("constructor failure requested")
                 run.trace.append({"l": ["construct", _i], "t": 0.0})
                 for ch in _spec["children"]:
+                    if run.prog[ch].get("twin"):
+                        continue        # declared in the configuration given to start_component()
                     if ch % 3 == 2:
                         # declared by reference, as configuration files do
                         globals()[f"DYN_C{ch}"] = run.classes[ch]
@@ -382,13 +404,18 @@ class StartupRun:
                         # safety net of the harness: if everything is blocked for ever the virtual clock
                         # jumps here instead of the process hanging
                         with anyio.move_on_after(10.0 ** 8) as guard:
+                            config: dict[str, Any] = {}
+                            if self.twin_next["T"]:
+                                shared = {"type": f"{__name__}:DYN_TWIN",
+                                          "components": {"lf": {"type": f"{__name__}:DYN_TWINLEAF"}}}
+                                config = {"components": {alias_of(self.prog[i]): shared for i in list(self.twin_next["T"])}}
                             if self.case.get("no_timeout"):
                                 # the documented way to switch the time limit off (a caller's own, far-away limit
                                 # stands in for "never" so that a stuck tree ends the run the same way)
                                 with anyio.fail_after(self.case["timeout"] * TICK):
-                                    root = await start_component(self.classes[0], {}, timeout=None)
+                                    root = await start_component(self.classes[0], config, timeout=None)
                             else:
-                                root = await start_component(self.classes[0], {}, timeout=self.case["timeout"] * TICK)
+                                root = await start_component(self.classes[0], config, timeout=self.case["timeout"] * TICK)
                         if guard.cancelled_caught:
                             outcome = {"k": "hang"}
                             self.log("raised", outcome)
